@@ -647,3 +647,120 @@ theorem no_orphan_until_final (pruneObjs : List Live) (localNs : List String) (t
           exact ⟨h2, by rw [h3]; simpa using hinv⟩
 
 end CliUtils.Props.C01
+
+namespace CliUtils.Props.C01
+open CliUtils CliUtils.Sys CliUtils.Props.C19
+
+/-! ### the merge itself, and the run from its start up to the final inventory task -/
+
+theorem invRead_safe (s : St) (hs : Safe s) : Safe s.invRead.1 :=
+  safe_of_eq _ _ hs (by simp) (by simp)
+
+theorem invCreateEffect_safe (ids : List Id) (c : Cluster) (h : NoOrphanCl c) (hn : c.inv = none) :
+    NoOrphanCl (invCreateEffect ids c).1 := by
+  intro o ho hown
+  simp only [invCreateEffect, Cluster.freshUid] at ho
+  obtain ⟨l, hl, _⟩ := h o ho hown
+  rw [hn] at hl; cases hl
+
+theorem invUpdateEffect_safe (ids : List Id) (c : Cluster) (h : NoOrphanCl c)
+    (hsup : ∀ l, c.inv = some l → ∀ i ∈ l, i ∈ ids) : NoOrphanCl (invUpdateEffect ids c).1 := by
+  unfold invUpdateEffect
+  cases hi : c.inv with
+  | none => simpa [hi] using h
+  | some l =>
+    intro o ho hown
+    obtain ⟨l', hl', hmem⟩ := h o ho hown
+    rw [hi] at hl'; injection hl' with hl'; subst hl'
+    exact ⟨ids, rfl, hsup l hi o.id hmem⟩
+
+/-- the merge never creates an orphan: it touches no object and only ever enlarges the stored set -/
+theorem mergeInv_safe (s : St) (ids : List Id) (hs : Safe s) : Safe (mergeInv s ids).1 := by
+  unfold mergeInv
+  simp only []
+  have e1 := invRead_safe s hs
+  have hcl1 : s.invRead.1.cl = s.cl := by simp
+  rw [invRead_snd]
+  by_cases hf1 : s.invReads ∈ s.run.failInvRead
+  · simp only [hf1, if_true]; exact e1
+  · simp only [hf1, if_false]
+    generalize s.invRead.1 = t1 at *
+    cases hinv : s.cl.inv with
+    | none =>
+      simp only []
+      split
+      · exact e1
+      · split
+        · exact e1
+        · exact safe_mutReq t1 "create" invObjId false "" "" (invCreateEffect ids) e1
+            (fun h => invCreateEffect_safe ids t1.cl h (by rw [hcl1]; exact hinv))
+    | some l =>
+      simp only []
+      have e2 := invRead_safe t1 e1
+      have hcl2 : t1.invRead.1.cl = t1.cl := by simp
+      rw [invRead_snd]
+      by_cases hf2 : t1.invReads ∈ t1.run.failInvRead
+      · simp only [hf2, if_true]; exact e2
+      · simp only [hf2, if_false, hcl1, hinv, Option.getD_some]
+        generalize t1.invRead.1 = t2 at *
+        split
+        · exact e2
+        · split
+          · exact e2
+          · split
+            · exact e2
+            · exact safe_mutReq t2 "update" invObjId false "" "" (invUpdateEffect (IdSet.union l ids)) e2
+                (fun h => invUpdateEffect_safe _ t2.cl h (by
+                  intro l' hl' i hi
+                  rw [hcl2, hcl1, hinv] at hl'
+                  injection hl' with hl'; subst hl'
+                  exact (mem_union _ ids i).mpr (Or.inl hi)))
+
+/-- **from the start of an apply run up to the final inventory task**: for a plan `inventory-add(ids)` followed by apply / prune /
+wait tasks whose apply tasks only name objects of `ids` — i.e. every plan the task builder produces — with a real (non dry-run)
+strategy and without creating the inventory namespace in this run: if the store is orphan-free at the start, it is orphan-free after
+every mutating request of these tasks, whatever fails, whenever the run is cancelled -/
+theorem no_orphan_from_start (pruneObjs : List Live) (localNs : List String) (name : String) (ids : List Id) (middle : List Task)
+    (s : St) (hs : Safe s) (hd : dryOf s = false) (hns : nsInv ∉ ids)
+    (hmid : ∀ t ∈ middle, match t.kind with
+      | .apply ids' => ∀ id ∈ ids', id ∈ ids
+      | .prune _ => True
+      | .wait _ _ => True
+      | _ => False) :
+    Safe (runTasks pruneObjs localNs s (⟨name, .invAdd ids⟩ :: middle)) := by
+  unfold runTasks
+  simp only []
+  have hs1 : Safe (s.emit (.group name ((⟨name, .invAdd ids⟩ : Task).action s.run.destroy) "Started")) := safe_of_eq _ _ hs rfl rfl
+  have hrt : runTask (s.emit (.group name ((⟨name, .invAdd ids⟩ : Task).action s.run.destroy) "Started")) ⟨name, .invAdd ids⟩ pruneObjs localNs =
+      mergeInv (s.emit (.group name ((⟨name, .invAdd ids⟩ : Task).action s.run.destroy) "Started")) ids := by
+    simp [runTask, runInvAdd, hns]
+  rw [hrt]
+  generalize hs1' : s.emit (.group name ((⟨name, .invAdd ids⟩ : Task).action s.run.destroy) "Started") = s1 at hs1 ⊢
+  have hd1 : dryOf s1 = false := by rw [← hs1']; exact hd
+  have hm := mergeInv_safe s1 ids hs1
+  cases hres : (mergeInv s1 ids).2 with
+  | some k => exact safe_of_eq _ _ hm rfl rfl
+  | none =>
+    simp only []
+    obtain ⟨l, hl, hsup, _, _⟩ := merge_superset s1 ids hres hd1
+    have hs3 : Safe ((mergeInv s1 ids).1.emit (.group name ((⟨name, .invAdd ids⟩ : Task).action s.run.destroy) "Finished")) :=
+      safe_of_eq _ _ hm rfl rfl
+    split
+    · exact safe_of_eq _ _ hs3 rfl rfl
+    · split
+      · exact safe_of_eq _ _ hs3 rfl rfl
+      · refine (no_orphan_until_final pruneObjs localNs middle _ hs3 ?_).1
+        intro t ht
+        have := hmid t ht
+        unfold MiddleTask
+        cases hk : t.kind with
+        | apply ids' =>
+          rw [hk] at this
+          intro id hid
+          exact ⟨l, by simpa using hl, hsup id (this id hid)⟩
+        | invAdd i => rw [hk] at this; exact this
+        | prune i => trivial
+        | wait i c => trivial
+        | invSet p pe => rw [hk] at this; exact this
+
+end CliUtils.Props.C01
